@@ -177,33 +177,40 @@ class Executor:
         self.obligations.append(Obligation(name, list(st.pc), goal, self.where(node) if node is not None else "", kind))
 
     def feasible(self, st: State) -> bool:
-        """cheap pruning of infeasible paths (sound: a path is dropped only on `unsat`)"""
+        """cheap pruning of infeasible paths (sound: a path is dropped only on `unsat`).
+        Only the class / primitive axioms and the quantifier-free part of the path condition
+        are given to the pruning solver: enough for the type tests, None tests and flags that
+        make most infeasible paths infeasible, and two orders of magnitude cheaper."""
         if self._prune_solver is None or self._prune_version != T.classes().version:
             self._prune_version = T.classes().version
             s = z3.Solver()
-            s.set("timeout", 150)
+            s.set("timeout", 100)
             try:
                 s.set("smt.mbqi", False)
             except z3.Z3Exception:
                 pass
-            for a in self.axioms():
+            for a in T.base_axioms():
                 s.add(a)
             self._prune_solver = s
         s = self._prune_solver
         s.push()
         try:
             for f in st.pc:
-                s.add(f)
+                if not _has_quantifier(f):
+                    s.add(f)
             r = s.check()
         finally:
             s.pop()
         return r != z3.unsat
 
     def axioms(self) -> List[Any]:
-        attrs = [n[2:] for n in self.heap_names if n.startswith("a:")]
-        ax = T.base_axioms() + T.heap_wf_axioms(attrs)
-        ax += self.registry.spec_axioms()
-        return ax
+        key = (T.classes().version, tuple(self.heap_names), len(T._strings))
+        if getattr(self, "_ax_key", None) != key:
+            attrs = [n[2:] for n in self.heap_names if n.startswith("a:")]
+            ax = T.base_axioms() + T.heap_wf_axioms(attrs)
+            ax += self.registry.spec_axioms()
+            self._ax_key, self._ax = key, ax
+        return self._ax
 
     # -- allocation ----------------------------------------------------------
     def new_obj(self, st: State, klass, hint="obj"):
@@ -371,9 +378,26 @@ class Executor:
 
     def exec_stmt(self, node: ast.stmt, st: State) -> List[Outcome]:
         m = getattr(self, "stmt_" + type(node).__name__, None)
-        if m is None:
-            raise Unsupported(f"statement {type(node).__name__} at {self.where(node)}")
-        return m(node, st)
+        try:
+            if m is None:
+                raise Unsupported(f"statement {type(node).__name__} at {self.where(node)}")
+            return m(node, st)
+        except (Unsupported, SidecarError):
+            # a construct outside the subset on a path the cheap pruning could not exclude:
+            # it is harmless iff the path is infeasible (checked with the full solver)
+            if self.definitely_infeasible(st):
+                return []
+            raise
+
+    def definitely_infeasible(self, st: State) -> bool:
+        s = z3.Solver()
+        s.set("timeout", 8000)
+        s.set("smt.mbqi", False)
+        for a in self.axioms():
+            s.add(a)
+        for f in st.pc:
+            s.add(f)
+        return s.check() == z3.unsat
 
     def stmt_Pass(self, node, st):
         return [Outcome("normal", st)]
@@ -1437,6 +1461,31 @@ class Executor:
 
     def expr_GeneratorExp(self, node, st):
         raise Unsupported("generator expression outside a supported call")
+
+
+_QCACHE: Dict[int, bool] = {}
+
+
+def _has_quantifier(e) -> bool:
+    key = e.get_id()
+    if key in _QCACHE:
+        return _QCACHE[key]
+    seen = set()
+    stack = [e]
+    res = False
+    while stack:
+        t = stack.pop()
+        i = t.get_id()
+        if i in seen:
+            continue
+        seen.add(i)
+        if z3.is_quantifier(t):
+            res = True
+            break
+        if z3.is_app(t):
+            stack.extend(t.children())
+    _QCACHE[key] = res
+    return res
 
 
 STRCAT = z3.Function("strcat", Val, Val, Val)
